@@ -4,8 +4,9 @@ Copies a confirmed seeded change from /tmp/wt/out/<Cxx>/<mN> to /verif/seeded/<C
 import json, os, shutil, sys, glob
 pid, m, status = sys.argv[1:4]
 note = " ".join(sys.argv[4:])
-src = "/tmp/wt/out/%s/%s" % (pid, m)
-dst = "/verif/seeded/%s_%s" % (pid, m)
+base = os.environ.get("OUTBASE", "/tmp/wt/out")
+src = "%s/%s/%s" % (base, pid, m)
+dst = "/verif/seeded/%s_%s%s" % (pid, os.environ.get("SEEDPREFIX", ""), m)
 os.makedirs(dst, exist_ok=True)
 for f in [x for x in glob.glob(src + "/*") if os.path.isfile(x)]:
     if os.path.basename(f).startswith("confirm_"):
